@@ -4,8 +4,8 @@ package verifsim
 
 import (
 	"context"
-	"crypto/x509"
 	"crypto/tls"
+	"crypto/x509"
 	"fmt"
 	"io"
 	"net/http"
